@@ -33,6 +33,7 @@ type Interp struct {
 	globalTrail []globalUndo
 	syncDepth   int // > 0 between Lock and Unlock and inside atomic operations (natives_sync.go)
 	syncMaps    map[*Value]*[]syncMapEntry
+	runeBounds  map[*Term][2]int64
 	initDone    map[*ssa.Package]bool
 
 	ctx      *Ctx
@@ -1312,7 +1313,7 @@ func (in *Interp) decodeRune(s []*Term) (*Term, int) {
 		if !cont(1) {
 			return runeErr, 1
 		}
-		return tb.Add(tb.Mul(off(b0, 0xC0), tb.Int(64)), off(s[1], 0x80)), 2
+		return in.boundedRune(tb.Add(tb.Mul(off(b0, 0xC0), tb.Int(64)), off(s[1], 0x80)), 0x80, 0x7FF), 2
 	case inRange(b0, 0xE0, 0xEF):
 		lo, hi := 0x80, 0xBF
 		if in.branch(tb.Eq(b0, tb.Int(0xE0))) {
@@ -1323,7 +1324,7 @@ func (in *Interp) decodeRune(s []*Term) (*Term, int) {
 		if len(s) < 2 || !inRange(s[1], lo, hi) || !cont(2) {
 			return runeErr, 1
 		}
-		return tb.Add(tb.Add(tb.Mul(off(b0, 0xE0), tb.Int(4096)), tb.Mul(off(s[1], 0x80), tb.Int(64))), off(s[2], 0x80)), 3
+		return in.boundedRune(tb.Add(tb.Add(tb.Mul(off(b0, 0xE0), tb.Int(4096)), tb.Mul(off(s[1], 0x80), tb.Int(64))), off(s[2], 0x80)), 0x800, 0xFFFF), 3
 	case inRange(b0, 0xF0, 0xF4):
 		lo, hi := 0x80, 0xBF
 		if in.branch(tb.Eq(b0, tb.Int(0xF0))) {
@@ -1335,9 +1336,30 @@ func (in *Interp) decodeRune(s []*Term) (*Term, int) {
 			return runeErr, 1
 		}
 		r := tb.Add(tb.Mul(off(b0, 0xF0), tb.Int(262144)), tb.Mul(off(s[1], 0x80), tb.Int(4096)))
-		return tb.Add(r, tb.Add(tb.Mul(off(s[2], 0x80), tb.Int(64)), off(s[3], 0x80))), 4
+		return in.boundedRune(tb.Add(r, tb.Add(tb.Mul(off(s[2], 0x80), tb.Int(64)), off(s[3], 0x80))), 0x10000, 0x10FFFF), 4
 	}
 	return runeErr, 1
+}
+
+// boundedRune records the range a decoded rune has by construction (the byte classes that led to
+// this formula are part of the path condition wherever the term is built).
+func (in *Interp) boundedRune(t *Term, lo, hi int64) *Term {
+	if in.runeBounds == nil {
+		in.runeBounds = map[*Term][2]int64{}
+	}
+	in.runeBounds[t] = [2]int64{lo, hi}
+	return t
+}
+
+// runeRange: the tightest known range of a rune term.
+func (in *Interp) runeRange(t *Term) (int64, int64, bool) {
+	if b, ok := in.runeBounds[t]; ok {
+		return b[0], b[1], true
+	}
+	if t.lo != nil && t.hi != nil && t.lo.IsInt64() && t.hi.IsInt64() {
+		return t.lo.Int64(), t.hi.Int64(), true
+	}
+	return 0, 0, false
 }
 
 func allConcretePrefix(s []*Term, n int) bool {
